@@ -720,6 +720,21 @@ func (c *collection) validateLifetimes() error {
 				continue
 			}
 
+			if dep.Group != "" {
+				// A group dependency receives every member of the group
+				for _, member := range c.groups[GroupKey{Type: dep.Type, Group: dep.Group}] {
+					if member != nil && member.Lifetime == Scoped {
+						return &LifetimeConflictError{
+							ServiceType:        descriptor.Type,
+							ServiceLifetime:    descriptor.Lifetime,
+							DependencyType:     dep.Type,
+							DependencyLifetime: member.Lifetime,
+						}
+					}
+				}
+				continue
+			}
+
 			depKey := instanceKey{Type: dep.Type, Key: dep.Key, Group: dep.Group}
 			depLifetime, ok := lifetimes[depKey]
 			if !ok {
